@@ -154,7 +154,7 @@ fn main() {
     let known: Vec<String> = args.extra.get("known").map(|s| s.split(',').map(|x| x.to_string()).collect()).unwrap_or_default();
     let scratch = scratch_dir("c02");
     let mut drv: Option<Driver> = if args.driver.as_os_str() == "none" { None } else { Some(Driver::spawn(&args.driver).expect("driver")) };
-    let verbose = args.extra.contains_key("verbose");
+    let verbose = args.extra.contains_key("verbose") || args.mode == "replay";
     let only = args.extra.get("only").cloned();
 
     let mut histories: Vec<(String, Vec<HOp>)> = vec![];
